@@ -100,6 +100,19 @@ theorem C04_block_all_or_nothing (c : Cfg) (o : Oracle) (body : List Prog) (out 
       obtain ⟨h1, h2, t, ht, hc⟩ := hdur.2 hok
       exact ⟨h2, h1, t, ht, hc⟩⟩
 
+/-- SAVEPOINT / ROLLBACK TO EXACTNESS (manual sequence on a clean transaction handle, any configuration, any oracle that
+    spares the SAVEPOINT and the ROLLBACK TO statement themselves): after `SavePoint(n)`, ANY number of writes — failing or
+    not — and `RollbackTo(n)`, the working store is exactly the store at the save point, the save-point stack is the one
+    right after `SavePoint(n)` (the save point stays usable) and RollbackTo returns nil. -/
+theorem C04_savepoint_exact (c : Cfg) (o : Oracle) (h : Handle) (hp : h.pool.isCommitter = true) (he : h.err = [])
+    (n : Nat) (ws : List Prog) (hws : ∀ p ∈ ws, ∃ w m, p = Prog.write w m) (db : DB) (v : Store) (S : List (SpName × Store))
+    (ht : db.tx = some { cur := v, saves := S }) (hsp : o db.calls = false)
+    (hrb : o (runBody c o h ws (runChild c o h (.sp n true) db).1).1.calls = false) :
+    (runChild c o h (.rb n true) (runBody c o h ws (runChild c o h (.sp n true) db).1).1).1.tx =
+      some { cur := v, saves := (.manual n, v) :: S } ∧
+    (runChild c o h (.rb n true) (runBody c o h ws (runChild c o h (.sp n true) db).1).1).2.2 = .ok :=
+  savepoint_exact c o h hp he n ws hws db v S ht hsp hrb
+
 /-- non-vacuity: a program satisfying the hypotheses (no stale use; commit succeeds; row 1 durable) -/
 example :
     let r := run C04_cfg0 (fun k => k == 99) [.blk [.write (.ins 1) true] .retNil 0 true] { committed := [] }
